@@ -15,7 +15,8 @@ def ref_prefix(prefix: str) -> RefFactory:
 
 def isolate_ref(schema: Dict[str, Any]):
     if "$ref" in schema and len(schema) > 1:
-        schema.setdefault("allOf", []).append({"$ref": schema.pop("$ref")})
+        # a new list: the one of the schema can be shared (e.g. given through schema(extra=...))
+        schema["allOf"] = [*schema.get("allOf", ()), {"$ref": schema.pop("$ref")}]
 
 
 def to_json_schema_2019_09(schema: JsonSchema) -> Dict[str, Any]:
@@ -61,9 +62,10 @@ def to_open_api_3_0(schema: JsonSchema) -> Dict[str, Any]:
             result.setdefault("nullable", True)
         result["type"] = [t for t in result["type"] if t != "null"]
         if len(result["type"]) > 1:
-            result.setdefault("anyOf", []).extend(
-                {"type": t} for t in result.pop("type")
-            )
+            result["anyOf"] = [
+                *result.get("anyOf", ()),
+                *({"type": t} for t in result.pop("type")),
+            ]
         else:
             result["type"] = result["type"][0]
     # exclusiveMinimum / exclusiveMaximum are boolean modifiers of minimum / maximum
